@@ -25,7 +25,7 @@ Inductive error : Type :=
 | ETag (t : Z)          (* TypeTag::from_u8 / ExprTag::from_u8 unknown byte *)
 | EEnum (what v : Z)    (* unknown direction / timing / event / granularity / action / operator byte *)
 | EDataType             (* parse_data_type: "Unsupported data type" *)
-| ECatalog (what : Z)   (* create_schema/role/table/index/trigger failed: 0 schema 1 role 2 table 3 index-table 4 index-dup 5 index-column 6 trigger 7 rows claimed for a table without columns *)
+| ECatalog (what : Z)   (* create_schema/role/table/index/trigger failed: 0 schema 1 role 2 table 3 index-table 4 index-dup 5 index-column 6 trigger 7 rows claimed for a table without columns 8 duplicate key under a UNIQUE index *)
 | ETableNotFound        (* read_data: table named in the data section does not exist *)
 | EInsert (what : Z)    (* Table::insert rejected the row: 0 column count, 1 NULL, 2 type mismatch *)
 | ETemporal             (* Date/Time/Timestamp FromStr returned Err *)
